@@ -1647,6 +1647,13 @@ def check_positive_examples(ctx):
     for f, lp, d, nm, cond in trim_loops(tu, [f for f in tu.functions.values() if f['q'].startswith('rkverif_c16::trim_')]):
         tv[f['q'].split('::')[-1]] = trim_verdict(tu, d, cond)[0]
     want = {'trim_le_space': 'bad', 'trim_isspace': 'ok', 'trim_unsigned_le_space': 'ok', 'trim_helper': 'ok', 'trim_not_graph': 'bad'}
+    tk = {}
+    for f, n, v, why in token_sites(tu, [f for f in tu.functions.values() if f['q'].startswith('rkverif_c16::tok_')]):
+        tk[f['q'].split('::')[-1]] = v
+    wantk = {'tok_quote_in_value': 'bad', 'tok_value': 'ok', 'tok_begin_plus_one': 'ok', 'tok_ident': 'ok', 'tok_end_behind': 'bad',
+             'tok_helper_scan': 'ok'}
+    if tk != wantk:
+        ctx.broken('R-C16-11 self-check: verdicts on drivers/c16_positive.cpp are %s, expected %s' % (tk, wantk))
     if tv != want:
         ctx.broken('R-C16-10 self-check: verdicts on drivers/c16_positive.cpp are %s, expected %s' % (tv, want))
 
@@ -2189,6 +2196,368 @@ def check_trim(ctx, tu):
                nontrivial=False)
 
 
+# ============================================================================================
+#  R-C16-11: a token never contains the byte that ends its scan, and loses none of the scanned bytes
+#  R-C16-12: the tree is assembled in document order
+# ============================================================================================
+def _cursor_param(f):
+    for p_ in f.get('params', []):
+        if re.match(r'^(const )?char \*( ?&)?$', p_['ct'].strip()):
+            return p_
+    return None
+
+
+def _plus_const(tu, e, var):
+    """k if e is `var`, `var + k`, `var - k` (k integer constant), else None"""
+    e = tu.strip(e, casts=True)
+    if e is None:
+        return None
+    if e.get('kind') == 'DeclRefExpr':
+        return 0 if tu.ref_decl(e) == var else None
+    if e.get('kind') == 'BinaryOperator' and e.get('opcode') in ('+', '-'):
+        a, b = tu.kids(e)
+        if tu.ref_decl(a) == var:
+            b = tu.strip(b, casts=True)
+            if b is not None and b.get('kind') == 'IntegerLiteral':
+                k = int(b.get('value'))
+                return k if e['opcode'] == '+' else -k
+    return None
+
+
+def _mentions(tu, n, var):
+    return any(x.get('kind') == 'DeclRefExpr' and tu.ref_decl(x) == var for x in tu.walk(n))
+
+
+def _is_cur_read(tu, x, var):
+    """x is `*var` or `var[0]`"""
+    if x.get('kind') == 'UnaryOperator' and x.get('opcode') == '*':
+        y = tu.strip(tu.kids(x)[0], casts=True)
+        return y is not None and y.get('kind') == 'DeclRefExpr' and tu.ref_decl(y) == var
+    if x.get('kind') == 'ArraySubscriptExpr':
+        b, i = tu.kids(x)
+        i = tu.strip(i, casts=True)
+        return tu.ref_decl(b) == var and i is not None and i.get('kind') == 'IntegerLiteral' and int(i.get('value')) == 0
+    return False
+
+
+def _true_set(tu, cond, var, env=None):
+    T = set()
+    for b in range(1, 256):
+        if _byte_eval(tu, cond, lambda x: x.get('kind') in ('UnaryOperator', 'ArraySubscriptExpr') and _is_cur_read(tu, x, var), b, dict(env or {})):
+            T.add(b)
+    return T
+
+
+def _only_advances(tu, body, var):
+    """the statement moves `var` forward by single steps only (++var / var++ / var += 1), possibly under ifs, and may throw"""
+    if body is None:
+        return False
+    k = body.get('kind')
+    if k in ('CompoundStmt',):
+        return all(_only_advances(tu, x, var) for x in tu.kids(body))
+    if k == 'NullStmt':
+        return True
+    if k == 'IfStmt':
+        ks = tu.kids(body)
+        return all(_only_advances(tu, x, var) for x in ks[1:])
+    if k in ('CXXThrowExpr', 'ExprWithCleanups') and any(x.get('kind') == 'CXXThrowExpr' for x in tu.walk(body)):
+        return True
+    if k == 'UnaryOperator' and body.get('opcode') == '++' and tu.ref_decl(tu.kids(body)[0]) == var:
+        return True
+    if k == 'CompoundAssignOperator' and body.get('opcode') == '+=' and tu.ref_decl(tu.kids(body)[0]) == var:
+        c = tu.strip(tu.kids(body)[1], casts=True)
+        return c is not None and c.get('kind') == 'IntegerLiteral' and int(c.get('value')) == 1
+    return not _mentions(tu, body, var)
+
+
+def _scan_loop(tu, st, var, env=None, depth=0):
+    """(true-set of the continue condition) if the statement is a scan loop over the cursor `var`: a while/for loop whose condition is a
+    function of the byte at the cursor and whose body only steps the cursor forward; a call of a helper that consists of such a loop over
+    its by-reference cursor parameter counts as the loop.  None if the statement is something else."""
+    k = st.get('kind')
+    if k in ('WhileStmt', 'ForStmt'):
+        if k == 'WhileStmt':
+            ks = tu.kids(st)
+            cond, parts = (ks[-2], [ks[-1]]) if len(ks) >= 2 else (None, [])
+        else:
+            raw = st.get('inner', [])
+            if len(raw) != 5 or raw[0].get('kind') or raw[1].get('kind'):
+                return None
+            cond, parts = raw[2], [x for x in raw[3:] if x.get('kind')]
+        if cond is None or not cond.get('kind') or not any(_is_cur_read(tu, x, var) for x in tu.walk(cond)):
+            return None
+        if any(x.get('kind') in ('UnaryOperator', 'CompoundAssignOperator', 'BinaryOperator') and x.get('opcode') in ('++', '--', '+=', '-=', '=')
+               and _mentions(tu, x, var) for x in tu.walk(cond)):
+            return None
+        if not all(_only_advances(tu, x, var) for x in parts):
+            return None
+        try:
+            return _true_set(tu, cond, var, env)
+        except _NoByteValue:
+            return None
+    if k == 'CallExpr' and depth < 2:
+        sd, obj, args = tu.call_parts(st)
+        cf = tu.callee_fn(st)
+        if cf is None or tu.body(cf) is None or not args or tu.ref_decl(args[0]) != var:
+            return None
+        cp = _cursor_param(cf)
+        if cp is None or cf['params'][0]['id'] != cp['id'] or not cp['ct'].rstrip().endswith('&'):
+            return None
+        env2 = {}
+        for p_, a_ in zip(cf['params'][1:], args[1:]):
+            a0 = tu.strip(a_, casts=True)
+            if a0 is not None and a0.get('kind') in ('CharacterLiteral', 'IntegerLiteral'):
+                env2[p_['id']] = int(a0.get('value'))
+        body = [x for x in tu.kids(tu.body(cf)) if x.get('kind') != 'NullStmt']
+        if len(body) == 1:
+            return _scan_loop(tu, body[0], cp['id'], env2, depth + 1)
+    return None
+
+
+def _motion(tu, st, var):
+    """bytes the statement moves the cursor forward over: list of byte values (None = unknown byte), or 'unknown'"""
+    k = st.get('kind')
+    if not _mentions(tu, st, var):
+        return []
+    if k == 'UnaryOperator' and st.get('opcode') == '++' and tu.ref_decl(tu.kids(st)[0]) == var:
+        return [None]
+    if k == 'CallExpr':
+        sd, obj, args = tu.call_parts(st)
+        cf = tu.callee_fn(st)
+        if cf is not None and len(args) == 2 and tu.ref_decl(args[0]) == var and _is_consume(tu, cf):
+            a1 = tu.strip(args[1], casts=True)
+            if a1 is not None and a1.get('kind') == 'CharacterLiteral':
+                return [int(a1.get('value')) & 0xff]
+            if a1 is not None and a1.get('kind') == 'StringLiteral':
+                try:
+                    import ast as pyast
+                    return [ord(c) & 0xff for c in pyast.literal_eval(a1.get('value', '""'))]
+                except Exception:
+                    return 'unknown'
+    return 'unknown'
+
+
+def _is_consume(tu, cf, depth=0):
+    """cf(char *&s, c): checks that *s is c (throwing otherwise) and advances by one; or the word form that does so per character"""
+    body = tu.body(cf)
+    cp = _cursor_param(cf)
+    if body is None or cp is None or len(cf.get('params', [])) != 2 or not cp['ct'].rstrip().endswith('&') or depth > 2:
+        return False
+    incs = [x for x in tu.walk(body) if x.get('kind') == 'UnaryOperator' and x.get('opcode') == '++' and tu.ref_decl(tu.kids(x)[0]) == cp['id']]
+    calls = [x for x in tu.walk(body) if x.get('kind') == 'CallExpr' and tu.call_parts(x)[2] and tu.ref_decl(tu.call_parts(x)[2][0]) == cp['id']]
+    second = cf['params'][1]
+    if 'char *' in second['ct']:          # word form: consumes each character of the literal through the single-character form
+        return any(tu.callee_fn(c) is not None and _is_consume(tu, tu.callee_fn(c), depth + 1) for c in calls) or (
+            len(incs) == 1 and any(x.get('kind') == 'CXXThrowExpr' for x in tu.walk(body)))
+    throws = any(x.get('kind') == 'CXXThrowExpr' for x in tu.walk(body))
+    checks = throws or any(tu.callee_fn(c) is not None and any(y.get('kind') == 'CXXThrowExpr' for y in tu.walk(tu.body(tu.callee_fn(c)) or {}))
+                           for c in calls)
+    return len(incs) == 1 and checks
+
+
+def token_sites(tu, fns):
+    """(function, construction node, verdict, text) for every token built from a [begin, end) pair of local cursors"""
+    out = []
+    for f in fns:
+        cp = _cursor_param(f)
+        body = tu.body(f)
+        if cp is None or body is None:
+            continue
+        S = cp['id']
+        for n in tu.walk(body):
+            if n.get('kind') not in ('CallExpr', 'CXXConstructExpr', 'CXXTemporaryObjectExpr'):
+                continue
+            if n.get('kind') == 'CallExpr':
+                args = tu.call_parts(n)[2]
+            else:
+                if 'basic_string' not in tu.sd(n).get('q', ''):
+                    continue
+                args = [a for a in tu.kids(n) if a.get('kind') != 'CXXDefaultArgExpr']
+            if len(args) < 2:
+                continue
+            B, E = tu.ref_decl(args[0]), tu.ref_decl(args[1])
+            bd, ed = (tu.node(B) if B else None), (tu.node(E) if E else None)
+            if bd is None or ed is None or B == E or bd.get('kind') != 'VarDecl' or ed.get('kind') != 'VarDecl':
+                continue
+            if not all(re.match(r'^(const )?char \*( const)?$', d.get('type', {}).get('qualType', '')) and tu.kids(d) for d in (bd, ed)):
+                continue
+            a = _plus_const(tu, tu.kids(bd)[-1], S)
+            b = _plus_const(tu, tu.kids(ed)[-1], S)
+            if a is None or b is None:
+                continue
+            out.append((f, n) + _token_verdict(tu, f, S, bd, ed, a, b))
+    return out
+
+
+def _token_verdict(tu, f, S, bd, ed, a, b):
+    def assigned(d):
+        for x in tu.walk(tu.body(f)):
+            if x.get('kind') in ('BinaryOperator', 'CompoundAssignOperator') and x.get('opcode', '').endswith('=') and \
+                    x.get('opcode') not in ('==', '!=', '<=', '>=') and tu.ref_decl(tu.kids(x)[0]) == d['id']:
+                return True
+            if x.get('kind') == 'UnaryOperator' and x.get('opcode') in ('++', '--') and tu.ref_decl(tu.kids(x)[0]) == d['id']:
+                return True
+        return False
+    if assigned(bd):
+        return 'none', 'the begin pointer is modified after its capture'
+    sb, se = tu.par(bd), tu.par(ed)          # DeclStmts
+    cb = tu.par(sb) if sb is not None else None
+    if sb is None or se is None or cb is None or cb is not tu.par(se) or cb.get('kind') != 'CompoundStmt':
+        return 'none', 'begin and end are not captured in one statement sequence'
+    seq = tu.kids(cb)
+    ib, ie = [i for i, x in enumerate(seq) if x is sb], [i for i, x in enumerate(seq) if x is se]
+    if not ib or not ie or ib[0] >= ie[0]:
+        return 'none', 'capture order not recognised'
+    pre, post, T, seen_loop = [], [], None, False
+    for st in seq[ib[0] + 1:ie[0]]:
+        st0 = tu.strip(st) or st
+        ts = _scan_loop(tu, st0, S)
+        if ts is not None:
+            if seen_loop:
+                return 'none', 'more than one scan loop between the captures'
+            seen_loop, T = True, ts
+            continue
+        m = _motion(tu, st0, S)
+        if m == 'unknown':
+            return 'none', 'a statement between the captures moves the cursor in a way that is not followed: `%s`' % tu.show(st0)[:60]
+        (post if seen_loop else pre).extend(m)
+    if not seen_loop:
+        return 'none', 'no scan loop between the captures'
+    nm_b, nm_e = bd.get('name', 'begin'), ed.get('name', 'end')
+    begin_rel = a - len(pre)
+    end_rel = b + len(post)
+    if end_rel > 0:
+        return 'bad', ('`%s` is captured %d byte(s) behind the position where the scan stopped: the token [%s, %s) includes the byte that '
+                       'ended the scan (the closing delimiter becomes part of the value)' % (nm_e, end_rel, nm_b, nm_e))
+    if end_rel < 0:
+        return 'bad', '`%s` is captured %d byte(s) in front of the position where the scan stopped: the token loses its last byte(s)' % (nm_e, -end_rel)
+    if begin_rel > 0:
+        return 'bad', '`%s` points %d byte(s) behind the first scanned byte: the token loses its first byte(s)' % (nm_b, begin_rel)
+    if begin_rel < 0:
+        inside = pre[len(pre) + begin_rel:] if -begin_rel <= len(pre) else None
+        if inside is None:
+            return 'bad', '`%s` points in front of the bytes consumed for this token' % nm_b
+        for c in inside:
+            if c is not None and c not in T:
+                return 'bad', ('`%s` is captured in front of the consumed delimiter %r, a byte the scan itself stops at: the delimiter becomes '
+                               'the first byte of the token' % (nm_b, chr(c)))
+        if any(c is None for c in inside):
+            # bytes stepped over without a literal: accepted when an enclosing test of the byte implies the scan's own continue condition
+            cur, Ti = tu.par(sb), None
+            for _ in range(12):
+                if cur is None or cur.get('kind') in ('FunctionDecl', 'CXXMethodDecl'):
+                    break
+                if cur.get('kind') == 'IfStmt':
+                    cnd = tu.kids(cur)[0]
+                    if any(_is_cur_read(tu, x, S) for x in tu.walk(cnd)):
+                        try:
+                            Ti = _true_set(tu, cnd, S)
+                        except _NoByteValue:
+                            Ti = None
+                        break
+                cur = tu.par(cur)
+            if Ti is None or not Ti <= T:
+                return 'none', 'the token starts with a byte stepped over without a test that implies the scan condition'
+    return 'ok', 'token [%s, %s) = exactly the bytes of the scan%s' % (nm_b, nm_e, (' plus %d accepted leading byte(s)' % -begin_rel) if begin_rel < 0 else '')
+
+
+CHILD_MUTATORS_BAD = ('insert', 'emplace', 'erase', 'pop_back', 'clear', 'resize', 'assign', 'swap')
+
+
+def check_tokens_and_order(ctx, tu):
+    R11, R12 = 'R-C16-11', 'R-C16-12'
+    ctx.describe(R11, 'a token [begin, end) built by the parser consists of exactly the bytes of its scan loop: it neither includes the byte the '
+                      'scan stopped at (or a consumed delimiter the scan would stop at) nor loses scanned bytes; positions from the statement '
+                      'sequence between the two captures, delimiter classes from the loop condition evaluated for every byte value')
+    ctx.describe(R12, 'the tree is assembled in document order: children are only appended (push_back / emplace_back of the node just parsed), '
+                      'and a property is stored under the name and with the value that the same parseProp call produced')
+    fs = tu.fns(q='rkcommon::xml::readXML')
+    if len(fs) != 1:
+        ctx.broken('%s: readXML not found' % R11)
+        return
+    fns = [f for f in reachable_fns(tu, fs[0]) if tu.fn_file(f).startswith('rkcommon/')]
+    nrec = 0
+    for f, n, v, why in token_sites(tu, fns):
+        inst = '%s: token at %s' % (f['q'].replace('rkcommon::', ''), tu.loc(n))
+        if v == 'ok':
+            nrec += 1
+            ctx.ok(R11, inst, why, tu.loc(n))
+        elif v == 'bad':
+            nrec += 1
+            ctx.violation(R11, inst, why, tu.loc(n), key='%s|%s|%s|token-extent' % (R11, tu.fn_file(f), f['q'].replace('rkcommon::', '')))
+        else:
+            ctx.ok(R11, inst, 'not decided here (%s)' % why, tu.loc(n), nontrivial=False)
+    if nrec == 0:
+        ctx.ok(R11, 'xml::readXML call graph', 'no [begin, end) token with an inline scan in the %d functions reachable from readXML' % len(fns),
+               tu.fn_loc(fs[0]), nontrivial=False)
+    # ---- R-C16-12
+    nodes = 0
+    for f in fns:
+        body = tu.body(f)
+        if body is None:
+            continue
+        for n in tu.walk(body):
+            if n.get('kind') != 'CXXMemberCallExpr':
+                continue
+            sd, obj, args = tu.call_parts(n)
+            o = tu.strip(obj, casts=True) if obj is not None else None
+            if o is None or o.get('kind') != 'MemberExpr' or o.get('name') != 'child':
+                continue
+            name = sd.get('q', '').split('::')[-1]
+            inst = '%s: %s at %s' % (f['q'].replace('rkcommon::', ''), tu.show(n)[:50], tu.loc(n))
+            if name in ('push_back', 'emplace_back'):
+                nodes += 1
+                ctx.ok(R12, inst, 'child appended at the end', tu.loc(n))
+            elif name in ('insert', 'emplace') and args and re.search(r'\bc?end\(\)', tu.show(args[0])) and 'child' in tu.show(args[0]):
+                nodes += 1
+                ctx.ok(R12, inst, 'child inserted at end()', tu.loc(n))
+            elif name in ('insert', 'emplace') and not (args and re.search(r'\bc?begin\(\)', tu.show(args[0]))):
+                ctx.ok(R12, inst, 'not decided here (insert position not recognised)', tu.loc(n), nontrivial=False)
+            elif name in CHILD_MUTATORS_BAD:
+                nodes += 1
+                ctx.violation(R12, inst, 'the child list is modified with %s(): children are no longer kept in the order (and number) in which '
+                              'they were parsed' % name, tu.loc(n), key='%s|%s|%s|child-%s' % (R12, tu.fn_file(f), f['q'].replace('rkcommon::', ''), name))
+        for n in tu.walk(body):
+            # X.properties[k] = v
+            if n.get('kind') != 'CXXOperatorCallExpr' or not tu.sd(n).get('q', '').endswith('::operator='):
+                continue
+            sd, obj, args = tu.call_parts(n)
+            sub = tu.strip(obj, casts=True) if obj is not None else None
+            if sub is None or sub.get('kind') != 'CXXOperatorCallExpr' or not tu.sd(sub).get('q', '').endswith('::operator[]'):
+                continue
+            sd2, obj2, args2 = tu.call_parts(sub)
+            o2 = tu.strip(obj2, casts=True) if obj2 is not None else None
+            if o2 is None or o2.get('kind') != 'MemberExpr' or o2.get('name') != 'properties' or not args2 or not args:
+                continue
+            kd, vd = tu.ref_decl(args2[0]), tu.ref_decl(args[0])
+            inst = '%s: %s' % (f['q'].replace('rkcommon::', ''), tu.show(n)[:60])
+            # the producing call: a call in this function that receives both variables by reference
+            prod = None
+            for c in tu.walk(body):
+                if c.get('kind') == 'CallExpr':
+                    ds = [tu.ref_decl(a_) for a_ in tu.call_parts(c)[2]]
+                    if kd in ds and vd in ds and kd != vd:
+                        prod = (c, ds.index(kd), ds.index(vd))
+                        break
+            if prod is None:
+                ctx.ok(R12, inst, 'not decided here (key and value are not both outputs of one call)', tu.loc(n), nontrivial=False)
+                continue
+            cf = tu.callee_fn(prod[0])
+            pn = [p_.get('name', '') for p_ in cf.get('params', [])] if cf else []
+            nodes += 1
+            if len(pn) > max(prod[1], prod[2]) and 'name' in pn[prod[2]].lower() and 'val' in pn[prod[1]].lower():
+                ctx.violation(R12, inst, 'the property is stored with key and value exchanged: the key is the variable that `%s` fills as `%s`, '
+                              'the value the one it fills as `%s`' % (cf['q'].split('::')[-1], pn[prod[1]], pn[prod[2]]), tu.loc(n),
+                              key='%s|%s|%s|property-key-value' % (R12, tu.fn_file(f), f['q'].replace('rkcommon::', '')))
+            elif prod[1] < prod[2]:
+                ctx.ok(R12, inst, 'key = output %d, value = output %d of %s' % (prod[1], prod[2], tu.show(prod[0])[:40]), tu.loc(n))
+            else:
+                ctx.ok(R12, inst, 'not decided here (output roles of %s not recognised)' % tu.show(prod[0])[:40], tu.loc(n), nontrivial=False)
+    if nodes == 0:
+        ctx.ok(R12, 'xml::readXML call graph', 'no child list / property map write recognised in the %d functions reachable from readXML' % len(fns),
+               tu.fn_loc(fs[0]), nontrivial=False)
+
+
 def run(ctx):
     ctx.assume('the buffer handed to parseXML is NUL-terminated (established by R-C16-3 for readXML)')
     ctx.assume('library character predicates (isalpha, isdigit, isspace) return false for the NUL byte')
@@ -2202,6 +2571,7 @@ def run(ctx):
     check_exception_discipline(ctx, tu)
     check_buffers(ctx, tu)
     check_trim(ctx, tu)
+    check_tokens_and_order(ctx, tu)
     check_positive_examples(ctx)
     from rkstatic import selftest
     selftest.run(ctx)
